@@ -4,10 +4,16 @@
    returns the very Table objects positional lookup lists, and nothing else; every column and index points back
    to its owner and is listed by exactly the table it points to.  (Side condition = defect D36: no table's
    alias equals its own full name.)  Plus the resolution lemmas for reference endpoints and index subjects.
-   Not proved (tie + identity oracle): the stability of reference endpoints / enum-typed columns / group items
-   until the end of the build, get_refs and the SQL key holder. *)
+   And [LinkedMore]: both endpoint lists of every contained reference are Column objects held by one listed
+   Table (the one the address was resolved to), table groups hold listed Table objects, a column whose type is an
+   Enum object holds a listed Enum.
+   Consequences proved for every state satisfying both invariants: Reference.table1 / table2 succeed and are the listed
+   tables holding the whole side; Table.get_refs of a listed table returns exactly the contained references whose left
+   side is that table; a reference that is not many-to-many has exactly one listed table as its SQL key holder.
+   An inline reference starts at the column that declared it (the registered blueprint carries the declaring table and column).
+   Not proved (tie + identity oracle): index subjects stay own columns, note back-pointers. *)
 From PyDBML Require Import PyStr Py Heap Classes Database Tools PP Actions Build GenClasses GenGrammar Entry
-  RuleFacts ContainerInv ContainerFull TableInv BuildInv.
+  RenderSQL RuleFacts ContainerInv ContainerFull TableInv BuildInv BuildLinks.
 Import ListNotations.
 
 Theorem C05_parsed_database_is_linked :
@@ -18,6 +24,66 @@ Theorem C05_parsed_database_is_linked :
     d = length h0 /\ Linked h1 d.
 Proof. exact parser_parse_linked. Qed.
 Print Assumptions C05_parsed_database_is_linked.
+
+(* reference endpoints, table-group items and enum-typed columns: what the addresses were resolved to is still in
+   place in the database that is returned *)
+Theorem C05_addresses_stay_resolved :
+  forall source allow sq dq h0 h1 d,
+    WW h0 -> (forall t tb, h_table h0 t = Some tb -> NoDup (names_of tb)) ->
+    parser_parse source allow sq dq h0 = (h1, Ok d) ->
+    (forall st, blueprints_of source allow h0 = (h0, Ok st) -> Forall good_table_bp (ps_tables st)) ->
+    exists db, Inv h1 d db /\ LinkedMore h1 d db.
+Proof. exact parser_parse_linked_more. Qed.
+Print Assumptions C05_addresses_stay_resolved.
+
+Theorem C05_build_database_keeps_links :
+  forall s allow sq dq h0 h1 r,
+    WW h0 -> (forall t tb, h_table h0 t = Some tb -> NoDup (names_of tb)) -> Forall good_table_bp (ps_tables s) ->
+    build_database s allow sq dq h0 = (h1, r) ->
+    exists db, Inv h1 (length h0) db /\ LinkedMore h1 (length h0) db.
+Proof. exact build_database_linked_more. Qed.
+Print Assumptions C05_build_database_keeps_links.
+
+(* Reference.table1 / table2 of a contained reference *)
+Theorem C05_reference_sides_resolve :
+  forall h d db r rr, Inv h d db -> LinkedMore h d db -> In r (d_refs db) -> h_reference h r = Some rr ->
+  exists t1 tb1 t2 tb2 cs1 cs2,
+    r_col1 rr = Some cs1 /\ r_col2 rr = Some cs2 /\
+    ref_table1 h rr = Ok (Some t1) /\ ref_table2 h rr = Ok (Some t2) /\
+    In t1 (d_tables db) /\ In t2 (d_tables db) /\ h_table h t1 = Some tb1 /\ h_table h t2 = Some tb2 /\
+    incl cs1 (t_columns tb1) /\ incl cs2 (t_columns tb2).
+Proof. exact ref_tables_resolve. Qed.
+Print Assumptions C05_reference_sides_resolve.
+
+(* Table.get_refs: exactly the contained references whose left side is that table *)
+Theorem C05_get_refs_exact :
+  forall h d db t, Inv h d db -> LinkedMore h d db -> In t (d_tables db) ->
+    table_get_refs t h = (h, Ok (filter (left_is h t) (d_refs db))).
+Proof. exact get_refs_exact. Qed.
+Print Assumptions C05_get_refs_exact.
+
+(* every reference that is not many-to-many is assigned to exactly one table as its SQL key holder *)
+Theorem C05_exactly_one_key_holder :
+  forall h d db r rr, Inv h d db -> LinkedMore h d db -> In r (d_refs db) -> h_reference h r = Some rr ->
+  (ostr_eqb (r_type rr) (Some MANY_TO_ONE) || ostr_eqb (r_type rr) (Some ONE_TO_ONE) || ostr_eqb (r_type rr) (Some ONE_TO_MANY)) = true ->
+  exists holder, In holder (d_tables db) /\ forall t, In t (d_tables db) -> holds_key h rr t = Ok (Nat.eqb t holder).
+Proof. exact key_holder_unique. Qed.
+Print Assumptions C05_exactly_one_key_holder.
+
+(* an inline reference starts at the column that declared it *)
+Theorem C05_inline_reference_origin :
+  forall td rb, In rb (table_ref_blueprints td) ->
+  exists cd rd0, In (PVBlue 5 cd) (flist_of td "columns") /\ In rd0 (flist_of cd "ref_blueprints") /\
+    match rd0 with
+    | PVBlue 4 _ =>
+        exists rd, rb = PVBlue 4 rd /\
+          dget (K "col1") rd = Some (match dget (K "name") cd with Some v => v | None => PVNone end) /\
+          dget (K "table1") rd = Some (match dget (K "name") td with Some v => v | None => PVNone end) /\
+          dget (K "schema1") rd = Some (PVStr (match fstr_of td "schema" with Some s => s | None => K "public" end))
+    | _ => rb = rd0
+    end.
+Proof. exact inline_ref_blueprint_origin. Qed.
+Print Assumptions C05_inline_reference_origin.
 
 (* the same for any list of blueprints, whatever grammar produced them; also when the build fails half-way *)
 Theorem C05_build_database_keeps_invariant :
